@@ -811,6 +811,53 @@ func (e *Engine) solveAll(obls []*Obl) {
 		}()
 	}
 	wg.Wait()
+	// second chance for proof obligations that merely ran out of time while everything was being solved at once: one
+	// at a time, on an otherwise idle machine, with three times the budget. A definite answer (sat / unsat) is never
+	// retried; a timeout that persists is reported as before. (GOVC_NO_RETRY=1 switches this off.)
+	if os.Getenv("GOVC_NO_RETRY") == "" {
+		n := 0
+		for _, o := range obls {
+			if o.Cover || o.Stale != "" || (o.Result.Status != "timeout" && o.Result.Status != "unknown") || len(o.Insts) == 0 || e.noRetry[o.Name] {
+				continue
+			}
+			if n >= 12 {
+				break // a broken tree fails many obligations: do not spend minutes re-trying all of them
+			}
+			n++
+			if len(o.Insts) > 3 {
+				all := o.Insts
+				res := SolverResult{Status: "unsat"}
+				var total int64
+				for i := 0; i < len(all); i += 3 {
+					j := i + 3
+					if j > len(all) {
+						j = len(all)
+					}
+					o.Insts = all[i:j]
+					r := runQuery(e.smtDir, fmt.Sprintf("%s.retry%d", o.Name, i/3), o.query(), 3*e.timeoutS, o.Quant, e.seed)
+					total += r.Ms
+					res.Solver = r.Solver
+					if r.Status != "unsat" {
+						res = r
+						break
+					}
+				}
+				o.Insts = all
+				if res.Status == "unsat" {
+					res.Solver += "+retry"
+					res.Ms = o.Result.Ms + total
+					o.Result = res
+				}
+				continue
+			}
+			r := runQuery(e.smtDir, o.Name+".retry", o.query(), 3*e.timeoutS, o.Quant, e.seed)
+			if r.Status == "unsat" {
+				r.Solver += "+retry"
+				r.Ms += o.Result.Ms
+				o.Result = r
+			}
+		}
+	}
 }
 
 // ok: proof obligations must be unsat. Cover obligations (vacuity guards) fail only when definitely
